@@ -71,6 +71,8 @@ def cbad(c):
     if c.get('ideal_repr'):
         return '[]'
     bad = [(int(k), v) for k, v in sorted((c.get('badrepr') or {}).items(), key=lambda kv: int(kv[0]))]
+    if c.get('recv_badrepr'):            # repr of the callable (bound method / partial of it) shows the receiver: code 999
+        bad.append((999, c['recv_badrepr']))
     return coq_list([f'({coq_nat(n)}, {cexn(e)})' for n, e in bad])
 
 
@@ -120,7 +122,8 @@ def coq_case(c):
         self_ = 51 if c['access'] == 'subinst' else 50
         k = coq_list([f'("{n}", {cval(x)})' for n, x in c["k"]])
         own = coq_bool(c.get('own_repr') == 'repr' and not c.get('ideal_repr'))
-        return (f'eval_class {cbad(c)} "{c["deco"]}" {own} {DN[c["deco"][:-6]]} {f} {MEMBER[c["member"]]} {ACCESS[c["access"]]} (VObj {self_}) (VCls 0) (VCls 1) '
+        member = coq_bool(c.get('own_repr') == 'calls_member' and not c.get('ideal_repr'))
+        return (f'eval_class {cbad(c)} "{c["deco"]}" {own} {member} {DN[c["deco"][:-6]]} {f} {MEMBER[c["member"]]} {ACCESS[c["access"]]} (VObj {self_}) (VCls 0) (VCls 1) '
                 f'{coq_list([cval(x) for x in a])} {k}')
     o = c.get('other') or NO_OTHER
     nre = len(c.get('redeco', []))
@@ -405,9 +408,16 @@ def add_bad_repr(rng, case, where=None):
 
 
 def gen_stack_case(rng, names, style, is_async=None, tier='quick', redeco=None, collide=None, sig=None, all_keywords=False,
-                   nameless=None, badrepr=None):
+                   nameless=None, badrepr=None, bound=None):
     """redeco: names of the decorators applied (by call) to the USED callable after the first part of the history;
     nameless: what is decorated is functools.partial(f) / an instance with __call__; badrepr: 'arg' | 'result' | 'any'"""
+    if bound is None and nameless is None and sig is None and redeco is None and rng.random() < 0.05:
+        bound = rng.choice(['named', 'named', 'partial'])
+    if bound:
+        # the BOUND METHOD obj.f of an object whose __repr__ raises is decorated by call ('partial': functools.partial of it)
+        names = [d for d in names if d not in ('overrides', 'require_kwargs', 'does_same_as_function')] or ['timer']
+        redeco = [d for d in (redeco or []) if d not in ('overrides', 'require_kwargs', 'does_same_as_function')]
+        nameless = 'partial' if bound == 'partial' else False
     if nameless is None and sig is None and redeco is None and rng.random() < 0.06:
         nameless = rng.choice(['partial', 'partial', 'object'])
     if nameless:
@@ -416,6 +426,8 @@ def gen_stack_case(rng, names, style, is_async=None, tier='quick', redeco=None, 
         names = [d for d in names if d not in ('overrides', 'require_kwargs')] or ['trace']
         redeco = [d for d in (redeco or []) if d not in ('overrides', 'require_kwargs')]
     method = rng.random() < 0.3 if (sig is None and not nameless) else False
+    if bound:
+        method = True
     is_async = rng.random() < 0.45 if is_async is None else is_async
     sig = gen_sig(rng, method, collide=collide) if sig is None else sig
     if redeco is None:
@@ -425,6 +437,8 @@ def gen_stack_case(rng, names, style, is_async=None, tier='quick', redeco=None, 
                       for _ in range(rng.choice([1, 1, 2]))]
     case = {'kind': 'stack', 'stream': style, 'async': is_async, 'method': method, 'sig': sig,
             'apply': '@' if rng.random() < 0.8 else 'call'}
+    if bound:
+        case['bound'], case['apply'], case['recv_badrepr'] = True, 'call', rng.choice(REPR_EXC)
     if nameless:
         if nameless == 'object':
             case['async'] = is_async = False          # iscoroutinefunction does not look into __call__
@@ -547,6 +561,10 @@ def gen_stack_cases(rng, tier, scale):
                 for where in ('arg', 'result'):
                     cases.append(gen_stack_case(rng, names, 'valid', is_async, tier, redeco=[], badrepr=where))
                 cases.append(gen_stack_case(rng, names, 'valid', is_async, tier, redeco=[], nameless='partial'))
+                if names[0] not in ('overrides', 'require_kwargs', 'does_same_as_function'):
+                    # a bound method of an object whose __repr__ raises (named: must never be repr'd), and a partial of it
+                    cases.append(gen_stack_case(rng, names, 'valid', is_async, tier, redeco=[], bound='named', badrepr=False))
+                    cases.append(gen_stack_case(rng, names, 'valid', is_async, tier, redeco=[], bound='partial', badrepr=False))
             for _ in range(scale):
                 cases.append(gen_stack_case(rng, names, 'valid', False, tier, redeco=[], nameless='object'))
     n_rand = (1000 if tier == 'quick' else 24000) * scale
@@ -582,7 +600,7 @@ def gen_class_cases(rng, tier, scale):
                                       'async': is_async and member != 'prop', 'sig': sig, 'a': c['a'], 'k': c['k'],
                                       'outs': [gen_out(rng, 0)], 'tail': ['ret', None]})
     for deco in ('trace_class', 'timer_class'):
-        for own in ('repr', 'str'):
+        for own in ('repr', 'str', 'calls_member'):
             for access in ('inst', 'subinst', 'class'):
                 for is_async in (False, True):
                     for _ in range(scale):
@@ -715,6 +733,7 @@ def stack_props(c, obs, twin, s, sigs, count_stats=True):
 PENDING = {}        # case key -> (idealisation flag, matcher id, ...): cases whose failure may be a registered defect
 K12_ID = 'require_kwargs_applied_by_call_over_a_wrapper_of_a_method'
 K13_ID = 'message_formats_a_value_whose_repr_fails'
+K13B_ID = 'trace_class_repr_uses_traced_member_or_init_state'
 ATTRIBUTE_ERROR, RECURSION_ERROR = 105, 10701
 
 
@@ -774,7 +793,7 @@ def judge_stack(c, impl, out):
             PENDING[case_key(c)] = ('ideal_kw', K12_ID, twin, sigs)
     # ... for the registered message defects: a value with a failing __repr__ / a callable without __name__ is involved,
     # the model reproduces the implementation, and the caller got exactly that failure
-    if prop and not corr and c.get('badrepr') and any(repr_failure(r) for r in obs['results']):
+    if prop and not corr and (c.get('badrepr') or c.get('recv_badrepr')) and any(repr_failure(r) for r in obs['results']):
         PENDING[case_key(c)] = ('ideal_repr', K13_ID, twin, sigs)
     return corr, prop
 
@@ -851,7 +870,7 @@ def judge_class(c, impl, out):
             EXPLAINED[case_key(c)] = 'for_all_methods_classmethod_through_subclass'
     if prop and not corr and (c.get('own_repr') or c.get('badrepr')) and repr_failure(dec['result']) \
             and case_key(c) not in EXPLAINED:
-        PENDING[case_key(c)] = ('ideal_repr', K13_ID, None, None)
+        PENDING[case_key(c)] = ('ideal_repr', K13B_ID if c.get('own_repr') == 'calls_member' else K13_ID, None, None)
     return corr, prop
 
 
